@@ -192,7 +192,7 @@ def run(tier):
         seeds.append(open(p, 'rb').read())
     for i in range(12):
         seeds.append(gen_prog.generate(random.Random(rng.getrandbits(48)), nfuncs=3, stmts=6).encode())
-    nmut, nodd, ntrunc = (24000, 6000, 4000) if tier == 'quick' else (1500000, 300000, 200000)
+    nmut, nodd, ntrunc = (24000, 6000, 4000) if tier == 'quick' else (300000, 80000, 50000)
     inputs = []
     for i in range(nmut):
         s = rng.choice(seeds)
